@@ -58,6 +58,8 @@ func vpSampleRecs(tag string, shape int) []*Fasta {
 		return []*Fasta{vpRecord(tag+"a.", 1, 2, 0), vpRecord(tag+"b.", 0, 1, 0)}
 	case 2:
 		return []*Fasta{vpRecord(tag+"a.", 1, 81, 0)}
+	case 5: // four sequence lines, the last one short
+		return []*Fasta{vpRecord(tag+"a.", 1, 241, 0)}
 	}
 	return []*Fasta{vpRecord(tag+"a.", 1, 1, 0), vpRecord(tag+"b.", 1, 0, 0), vpRecord(tag+"c.", 0, 2, 0)}
 }
